@@ -4,7 +4,7 @@ HOOKS = {
               "built with `cargo build -p train --features vaporetto/verif-hooks` into /verif/target/repo-hooks and run with the environment "
               "variable VAPORETTO_VERIF_DUMP naming a scratch file (without the feature, or without the variable, nothing is recorded)",
     "baseline_off_cmd": "cd /repo && cargo test --workspace --no-fail-fast --offline",
-    "source_commits": ["cf6fd43", "9557e87", "9e3509a", "16fb2df", "0071c72"],
+    "source_commits": ["cf6fd43", "9557e87", "9e3509a", "16fb2df", "0071c72", "3d1b036"],
     "add_only": True,
 }
 NOTES = ("Every check rebuilds the Rust harness against /repo's working tree, regenerates lean/VModel/Generated/* by exhaustive "
@@ -194,7 +194,9 @@ META = {
                 "tokens are never added together), every specified class score (C06_spec_bounded, any model; per class C06_spec_bounded_class), every value a checked += on PositionalWeightWithTag produces in "
                 "either merger phase and every entry of the tag_weight tables and bias vectors (C06_merged_bounded), and the score vector of a token after the bias and after EVERY prefix of either "
                 "add_tag_scores loop (C06_running_bounded) is at most that mass in absolute value; tagMass < 2^31 keeps tag scoring inside i32 (C06_no_overflow; with C01: C06_no_overflow_all). Sharp by decide-checked models. "
-                "Generators add candidate counts around multiples of 8 with weight vectors that are zero from some position on.",
+                "Generators add candidate counts around multiples of 8 with weight vectors that are zero from some position on. "
+                "Hash-map order: C06_taginfo_perm — building the predictor with every merge of two tag-weight maps and every walk over a merged map done in an ARBITRARY order gives the same predictor, and a predictor whose "
+                "table cells and token map are listed in any order predicts and tags identically (chain: C06_taginfo_add_equiv, _addAll_equiv, _merge_equiv, _fill_perm, _build_perm, C06_tagweight_cell_perm, C06_tag_predictor_lookup_perm).",
         "design_ref": "DESIGN.md §6 C06",
         "note": _common_note + "daachorse contract as in C01 (longest pattern per end position is what the recorded state holds).",
         "technique": "Lean 4 proof (merge invariant instantiated at (token, rel, class) evaluations; loop = specSeg; row non-interference) + differential correspondence",
@@ -226,7 +228,9 @@ META = {
                 "prediction rule gives a single-candidate category that candidate, a multi-candidate category one of them, an empty "
                 "category none (C12_pick). The score-equality clause is the composition with C06 (stored scores = classifier sums) "
                 "and is tied to /repo through hook H3: the Lean model must assemble the byte-identical tag models from the recorded "
-                "quantised weights, and the harness recomputes the stored tag scores from its own tag-feature enumeration.",
+                "quantised weights, and the harness recomputes the stored tag scores from its own tag-feature enumeration. "
+                "Hash-map order is unobservable (C12_assemble_perm, C12_assemble_perm_features, C12_assemble_dict_perm). Which tag a class of the learner was trained for is tied by the separable-corpus "
+                "cases (oracle c12sep: with the gold boundaries every training sentence of a linearly separable tag corpus gets its own tags back).",
         "design_ref": "DESIGN.md §6 C12",
         "note": _common_note + "liblinear and the f64 quantisation are outside the model (hook trace). The end-to-end statement 'stored tag scores equal the "
                 "quantised classifier on the trainer's tag features' is established differentially (oracle on the trained models), not as one theorem.",
@@ -264,7 +268,9 @@ META = {
                 "type n-grams within their own window, left/inside/right dictionary features by length bucket. Composed with C01 "
                 "(predictor = specification) this is the end-to-end statement for windows >= 1. Tied to /repo through hook H1: the Lean "
                 "model must assemble the byte-identical model from the recorded quantised weights, and the harness checks the real "
-                "predictor's scores against bias + sum of the recorded weights over its own feature enumeration.",
+                "predictor's scores against bias + sum of the recorded weights over its own feature enumeration. "
+                "The order in which Trainer::train walks its feature HashMap is unobservable: C09_assemble_perm_ok / _eq / _panic_iff (every permutation of the distinct features assembles the same model); "
+                "oracle c10bias-style behavioural cases are C10's.",
         "design_ref": "DESIGN.md §6 C09",
         "note": _common_note + "liblinear and the f64 quantisation are outside the model (hook trace). For window size 0 the composition with C01 is not a "
                 "theorem (C01 assumes windows >= 1); that case is covered by the oracle on trained models.",
@@ -286,7 +292,10 @@ META = {
                 "dictionary it builds is strictly sorted, free of empty and repeated words and exactly the token surfaces of the normalised "
                 "dictionary lines, so Trainer::new always accepts it (C11_train_tool_dictionary). The usability theorems also hold for window "
                 "size 0 (WFModel0): C11_assembled_wf0, C11_assembled_dropW0, C11_predictor_accepts_window0, C11_predict_total_window0, "
-                "C11_trained_predictor_scores_window0 (the end-to-end statement for all window sizes 0..255).",
+                "C11_trained_predictor_scores_window0 (the end-to-end statement for all window sizes 0..255). "
+                "The f64 quantisation of Trainer::train is modelled exactly (VModel/Quantize.lean: IEEE-754 binary64 division with integer arithmetic, to_int_unchecked as Res.ub): for finite coefficients never undefined behaviour "
+                "(C11_quantise_no_ub); every quantised value within [-32767, 32767] whenever the largest absolute coefficient is at least 2^-1045 (C11_quantise_range, C11_quantise_total; exact threshold in _sharp, with the "
+                "decide-checked failure below it); the largest coefficient maps to +-32767 or +-32766; monotone and odd. Hook H6 records the raw bit patterns of every training run, which the driver re-quantises (Qok).",
         "design_ref": "DESIGN.md §6 C11",
         "note": _common_note + "PARTIAL by nature: 'training never panics' for the learner call itself is established by the sweep (exploration), not by a "
                 "theorem; the theorems cover everything before and after the learner.",
@@ -323,7 +332,9 @@ META = {
                 "list of lines (C20_eval_word_counts), whose hypotheses every counted line meets (C20_eval_line_wf). "
                 "Tied to /repo by running the REAL predict and evaluate binaries (built from the working tree) on generated streams x "
                 "all 16 / 8 flag combinations x wsconst sets, comparing stdout and exit status with the model and with a per-line "
-                "library pipeline in the harness; evaluate's P/R/F1 are compared as text against the same f64 expressions.",
+                "library pipeline in the harness; evaluate's P/R/F1 are compared as text against the same f64 expressions. "
+                "The floats of evaluate are modelled exactly (VModel/F64Arith.lean: correctly rounded conversion, product, sum and quotient on the binary64 model): C20_eval_metrics_nan, _range, _exact_ratio, "
+                "C20_eval_f1_symmetric, C20_eval_f1_between (with a proved counterexample to min <= F1 <= max), and compared bit for bit with what the real tool prints on every CE case.",
         "design_ref": "DESIGN.md §6 C20",
         "note": _common_note + "PARTIAL: clap, process exit codes, tty flushing and the floats of evaluate are not modelled; C20_no_crash covers "
                 "character-type --wsconst values (the G filter needs cluster data; it is covered by the runs).",
